@@ -28,26 +28,44 @@ type workerRoot struct {
 	errC bool          // takes the error channel
 }
 
-// workerRoots finds the functions started through the wait-group wrapper in (*FullNode).Run.
+// workerRoots finds the functions started as workers in (*FullNode).Run. A worker is started by a
+// go statement whose closure defers wg.Done and calls a function value: the parameter of a
+// wait-group wrapper (spawnWorker(func() { … })), or an element of a table of closures walked by
+// a loop in Run itself. spawn is the function that holds that go statement (the wrapper, or Run).
 func workerRoots(c *Check, p *Prog) (run *ssa.Function, roots []workerRoot, spawn *ssa.Function) {
 	run = p.MustFunc("(*" + rootPath + "/node.FullNode).Run")
-	// the wrapper: the anonymous function of Run that contains a `go` statement and wg.Add
-	for _, af := range run.AnonFuncs {
-		hasGo := false
-		for _, b := range af.Blocks {
-			for _, in := range b.Instrs {
-				if _, ok := in.(*ssa.Go); ok {
-					hasGo = true
-				}
+	defersDone := func(body *ssa.Function) bool {
+		if body == nil || len(body.Blocks) == 0 {
+			return false
+		}
+		for _, in := range body.Blocks[0].Instrs {
+			if d, ok := in.(*ssa.Defer); ok && commonName(d.Common()) == "(*sync.WaitGroup).Done" {
+				return true
 			}
 		}
-		if hasGo && len(af.Params) == 1 {
-			spawn = af
+		return false
+	}
+	var spawnGo *ssa.Go
+	hosts := append([]*ssa.Function{run}, run.AnonFuncs...)
+	for _, h := range hosts {
+		for _, b := range h.Blocks {
+			for _, in := range b.Instrs {
+				gi, ok := in.(*ssa.Go)
+				if !ok {
+					continue
+				}
+				if mc, ok := gi.Common().Value.(*ssa.MakeClosure); ok {
+					if body, _ := mc.Fn.(*ssa.Function); defersDone(body) {
+						spawn, spawnGo = h, gi
+					}
+				}
+			}
 		}
 	}
 	if spawn == nil {
 		return
 	}
+	_ = spawnGo
 	// call sites of the wrapper in Run: argument closures
 	aggBlockDom := func(b *ssa.BasicBlock) string {
 		// classify by the dominating test on ...Node.Aggregator
@@ -66,56 +84,81 @@ func workerRoots(c *Check, p *Prog) (run *ssa.Function, roots []workerRoot, spaw
 		}
 		return "both"
 	}
-	for _, b := range run.Blocks {
-		for _, in := range b.Instrs {
-			call, ok := in.(*ssa.Call)
-			if !ok {
-				continue
-			}
-			mc, ok := call.Common().Value.(*ssa.MakeClosure)
-			if !ok || mc.Fn != ssa.Value(spawn) {
-				// spawnWorker is a local variable: the call value is a load of its alloc
-				if u, isU := call.Common().Value.(*ssa.UnOp); isU {
-					if al, isA := u.X.(*ssa.Alloc); isA {
-						found := false
-						for _, r := range *al.Referrers() {
-							if st, isS := r.(*ssa.Store); isS {
-								if m2, isM := st.Val.(*ssa.MakeClosure); isM && m2.Fn == ssa.Value(spawn) {
-									found = true
-								}
+	addWorker := func(cl *ssa.MakeClosure, at *ssa.BasicBlock) {
+		body := cl.Fn.(*ssa.Function)
+		for _, bb := range body.Blocks {
+			for _, bi := range bb.Instrs {
+				if cc, ok := bi.(*ssa.Call); ok {
+					if callee := cc.Common().StaticCallee(); callee != nil && p.InRepo(callee) {
+						wr := workerRoot{fn: callee, mode: aggBlockDom(at)}
+						for _, prm := range callee.Params {
+							if ch, ok := prm.Type().Underlying().(*types.Chan); ok && ch.Elem().String() == "error" {
+								wr.errC = true
 							}
 						}
-						if !found {
+						roots = append(roots, wr)
+					}
+				}
+			}
+		}
+	}
+	if spawn != run {
+		for _, b := range run.Blocks {
+			for _, in := range b.Instrs {
+				call, ok := in.(*ssa.Call)
+				if !ok {
+					continue
+				}
+				mc, ok := call.Common().Value.(*ssa.MakeClosure)
+				if !ok || mc.Fn != ssa.Value(spawn) {
+					// spawnWorker is a local variable: the call value is a load of its alloc
+					if u, isU := call.Common().Value.(*ssa.UnOp); isU {
+						if al, isA := u.X.(*ssa.Alloc); isA {
+							found := false
+							for _, r := range *al.Referrers() {
+								if st, isS := r.(*ssa.Store); isS {
+									if m2, isM := st.Val.(*ssa.MakeClosure); isM && m2.Fn == ssa.Value(spawn) {
+										found = true
+									}
+								}
+							}
+							if !found {
+								continue
+							}
+						} else {
 							continue
 						}
 					} else {
 						continue
 					}
-				} else {
-					continue
+				}
+				for _, a := range call.Common().Args {
+					if cl, ok := a.(*ssa.MakeClosure); ok {
+						addWorker(cl, b)
+					}
 				}
 			}
-			for _, a := range call.Common().Args {
-				cl, ok := a.(*ssa.MakeClosure)
+		}
+	} else {
+		// a table of closures: every parameterless closure literal of Run stored into an element of
+		// a local array / slice of func()
+		for _, b := range run.Blocks {
+			for _, in := range b.Instrs {
+				st, ok := in.(*ssa.Store)
 				if !ok {
 					continue
 				}
-				body := cl.Fn.(*ssa.Function)
-				for _, bb := range body.Blocks {
-					for _, bi := range bb.Instrs {
-						if cc, ok := bi.(*ssa.Call); ok {
-							if callee := cc.Common().StaticCallee(); callee != nil && p.InRepo(callee) {
-								wr := workerRoot{fn: callee, mode: aggBlockDom(b)}
-								for _, prm := range callee.Params {
-									if ch, ok := prm.Type().Underlying().(*types.Chan); ok && ch.Elem().String() == "error" {
-										wr.errC = true
-									}
-								}
-								roots = append(roots, wr)
-							}
-						}
-					}
+				cl, ok := st.Val.(*ssa.MakeClosure)
+				if !ok {
+					continue
 				}
+				if _, isElem := st.Addr.(*ssa.IndexAddr); !isElem {
+					continue
+				}
+				if sig, ok := cl.Type().Underlying().(*types.Signature); !ok || sig.Params().Len() != 0 || sig.Results().Len() != 0 {
+					continue
+				}
+				addWorker(cl, b)
 			}
 		}
 	}
@@ -200,6 +243,9 @@ func runC13(c *Check) {
 	ruleWorkersStartNoStrayGoroutines(c, p, "C13-R10")
 	c.Doc("C13-R7", "EO (pairing): every mutex acquisition in the node's packages and the sequencing layer is released on every path to a return (a leaked lock parks the loops that share it in Lock(), which no stop request can interrupt).")
 	ruleLockPairing(c, "C13-R7", []*Prog{p, c.Mod(ModSingle)})
+	c.Doc("C13-R11", "LS (guarded-by): in every struct of the repository that owns a mutex (other than the block manager, C13-R1), a field that some function writes with the mutex held is accessed with that mutex held everywhere outside construction (locally or at every call site of the enclosing helper): a lock-free read or write of such a field races with the guarded writers.")
+	ruleStructLocksets(c, "C13-R11", []*Prog{p, c.Mod(ModSingle), c.Mod(ModDA), c.Mod(ModTestapp), c.Mod(ModBased)})
+	c.MinInstances("C13-R11", 8)
 }
 
 // blockingOp classifies node n. kind == "" if it is not a blocking operation.
@@ -498,21 +544,30 @@ func ruleJoinDiscipline(c *Check, p *Prog, run, spawn *ssa.Function) {
 		g := BuildECFG(p, spawn, ExpandOpts{MaxDepth: 0})
 		c.NoteGraph(g)
 		adds := g.Select(IsCall("(*sync.WaitGroup).Add"))
-		gos := g.Select(func(n *Node) bool { _, ok := n.In.(*ssa.Go); return ok })
-		okAdd := len(adds) > 0 && len(gos) == 1 && g.MustPrecede(nodeSet(adds), nodeSet(gos)) == nil
-		okDone := false
-		if len(gos) == 1 {
-			if mc, ok := gos[0].In.(*ssa.Go).Common().Value.(*ssa.MakeClosure); ok {
+		defersDone := func(n *Node) bool {
+			gi, ok := n.In.(*ssa.Go)
+			if !ok {
+				return false
+			}
+			if mc, ok := gi.Common().Value.(*ssa.MakeClosure); ok {
 				body := mc.Fn.(*ssa.Function)
 				for _, b := range body.Blocks {
 					for _, in := range b.Instrs {
 						if d, ok := in.(*ssa.Defer); ok && commonName(d.Common()) == "(*sync.WaitGroup).Done" && b == body.Blocks[0] {
-							okDone = true
+							return true
 						}
 					}
 				}
 			}
+			return false
 		}
+		gos := g.Select(func(n *Node) bool { _, ok := n.In.(*ssa.Go); return ok })
+		if spawn == run {
+			// the table form: Run also starts the RPC server, which is stopped through Shutdown
+			gos = g.Select(defersDone)
+		}
+		okAdd := len(adds) > 0 && len(gos) == 1 && g.MustPrecede(nodeSet(adds), nodeSet(gos)) == nil
+		okDone := len(gos) == 1 && defersDone(gos[0])
 		if okAdd && okDone {
 			c.OK("C13-R5", "Run ⟂ wrapper: Add<go, deferred Done", fnName(spawn), p.Pos(spawn.Pos()), "workers are counted before they start and un-counted on every exit", true)
 		} else {
@@ -570,7 +625,21 @@ func ruleJoinDiscipline(c *Check, p *Prog, run, spawn *ssa.Function) {
 	nGo := 0
 	for _, b := range run.Blocks {
 		for _, in := range b.Instrs {
-			if _, ok := in.(*ssa.Go); ok {
+			if gi, ok := in.(*ssa.Go); ok {
+				if mc, isMC := gi.Common().Value.(*ssa.MakeClosure); isMC && spawn == run {
+					// the table form: the counted start site itself is a go statement of Run
+					counted := false
+					if body, _ := mc.Fn.(*ssa.Function); body != nil && len(body.Blocks) > 0 {
+						for _, bi := range body.Blocks[0].Instrs {
+							if d, ok := bi.(*ssa.Defer); ok && commonName(d.Common()) == "(*sync.WaitGroup).Done" {
+								counted = true
+							}
+						}
+					}
+					if counted {
+						continue
+					}
+				}
 				nGo++
 			}
 		}
